@@ -552,20 +552,24 @@ package motion
 //@   loop 4 invariant d.start <= y_2 && y_2 <= d.rowStop
 //@   loop 4 invariant [C15,C08] d.bgRows(new_frame, d.start, y_2, prevFFC)
 //@   loop 4 invariant [C15] forall yy int, xx int :: 0 <= yy && yy < d.gResY && 0 <= xx && xx < d.gResX ==> nonneg32(d.backgroundWeight[yy][xx])
+//@   loop 4 invariant [C09] prevFFC ==> (y_2 > d.start ==> changed) && (forall yy int, xx int :: d.start <= yy && yy < y_2 && d.start <= xx && xx < d.columnStop ==> d.backgroundWeight[yy][xx] == f32zero())
 //@   loop 5 invariant d.start <= y_2 && y_2 < d.rowStop && d.start <= x_2 && x_2 <= d.columnStop
 //@   loop 5 invariant [C15,C08] d.bgRows(new_frame, d.start, y_2, prevFFC)
 //@   loop 5 invariant [C15] forall yy int, xx int :: 0 <= yy && yy < d.gResY && 0 <= xx && xx < d.gResX ==> nonneg32(d.backgroundWeight[yy][xx])
+//@   loop 5 invariant [C09] prevFFC ==> (y_2 > d.start || x_2 > d.start ==> changed) && (forall yy int, xx int :: d.start <= yy && yy < y_2 && d.start <= xx && xx < d.columnStop ==> d.backgroundWeight[yy][xx] == f32zero()) && (forall xx int :: d.start <= xx && xx < x_2 ==> d.backgroundWeight[y_2][xx] == f32zero())
 //@   loop 5 invariant [C15,C08] forall xx int :: d.start <= xx && xx < x_2 ==> d.background.Pix[y_2][xx] <= new_frame.Pix[y_2][xx] && (prevFFC ==> d.background.Pix[y_2][xx] == new_frame.Pix[y_2][xx])
 //@   loop 5 invariant [C15,C08] x_2 > d.start ==> (forall xx int :: 0 <= xx && xx < d.start ==> d.background.Pix[y_2][xx] == d.background.Pix[y_2][d.start]) && (forall xx int :: d.columnStop <= xx && xx < d.gResX ==> d.background.Pix[y_2][xx] == d.background.Pix[y_2][d.columnStop - 1])
 //@   loop 6 invariant d.start <= y_2 && y_2 < d.rowStop && d.start <= x_2 && x_2 < d.columnStop && 0 <= x_3 && x_3 <= d.start
 //@   loop 6 invariant [C15,C08] d.bgRows(new_frame, d.start, y_2, prevFFC)
 //@   loop 6 invariant [C15] forall yy int, xx int :: 0 <= yy && yy < d.gResY && 0 <= xx && xx < d.gResX ==> nonneg32(d.backgroundWeight[yy][xx])
+//@   loop 6 invariant [C09] prevFFC ==> changed && (forall yy int, xx int :: d.start <= yy && yy < y_2 && d.start <= xx && xx < d.columnStop ==> d.backgroundWeight[yy][xx] == f32zero()) && (forall xx int :: d.start <= xx && xx <= x_2 ==> d.backgroundWeight[y_2][xx] == f32zero())
 //@   loop 6 invariant [C15,C08] forall xx int :: d.start <= xx && xx <= x_2 ==> d.background.Pix[y_2][xx] <= new_frame.Pix[y_2][xx] && (prevFFC ==> d.background.Pix[y_2][xx] == new_frame.Pix[y_2][xx])
 //@   loop 6 invariant [C15,C08] forall xx int :: 0 <= xx && xx < x_3 ==> d.background.Pix[y_2][xx] == d.background.Pix[y_2][d.start]
 //@   loop 6 invariant [C15,C08] forall xx int :: d.columnStop <= xx && xx < d.columnStop + x_3 ==> d.background.Pix[y_2][xx] == d.background.Pix[y_2][d.columnStop - 1]
 //@   loop 7 invariant 0 <= y_4 && y_4 <= d.start
 //@   loop 7 invariant [C15,C08] d.bgRows(new_frame, d.start, d.rowStop, prevFFC)
 //@   loop 7 invariant [C15] forall yy int, xx int :: 0 <= yy && yy < d.gResY && 0 <= xx && xx < d.gResX ==> nonneg32(d.backgroundWeight[yy][xx])
+//@   loop 7 invariant [C09] prevFFC ==> changed && (forall yy int, xx int :: d.interior(yy, xx) ==> d.backgroundWeight[yy][xx] == f32zero())
 //@   loop 7 invariant [C15,C08] forall yy int, xx int :: 0 <= yy && yy < y_4 && 0 <= xx && xx < d.gResX ==> d.background.Pix[yy][xx] == d.background.Pix[d.start][xx]
 //@   loop 7 invariant [C15,C08] forall yy int, xx int :: d.rowStop <= yy && yy < d.rowStop + y_4 && 0 <= xx && xx < d.gResX ==> d.background.Pix[yy][xx] == d.background.Pix[d.rowStop - 1][xx]
 //@   ensures d.backgroundFrames == old(d.backgroundFrames) + 1 && d.bgInv()
@@ -573,6 +577,7 @@ package motion
 //@   ensures [C15,C08] forall yy int, xx int :: 0 <= yy && yy < d.start && 0 <= xx && xx < d.gResX ==> d.background.Pix[yy][xx] == d.background.Pix[d.start][xx]
 //@   ensures [C15,C08] forall yy int, xx int :: d.rowStop <= yy && yy < d.gResY && 0 <= xx && xx < d.gResX ==> d.background.Pix[yy][xx] == d.background.Pix[d.rowStop - 1][xx]
 //@   ensures [C15] d.backgroundFrames == 1 ==> !changed && avg == 0.0
+//@   ensures [C09] prevFFC && d.backgroundFrames > 1 ==> changed && (forall yy int, xx int :: d.interior(yy, xx) ==> d.backgroundWeight[yy][xx] == f32zero())
 
 //@ func (d *motionDetector) Detect(frame)
 //@   requires d != nil && d.DInv() && d.bgInv() && frameDims(frame, d.gResX, d.gResY) && d.notMine(frame) && frame != d.background
